@@ -33,9 +33,10 @@ End val_ind'.
 
 Section instr_ind'.
   Variable P : instr -> Prop.
-  Hypothesis Hbase : forall i, (forall a b, i <> IF_NONE a b) -> (forall a b, i <> IF_CONS a b) -> P i.
+  Hypothesis Hbase : forall i, (forall a b, i <> IF_NONE a b) -> (forall a b, i <> IF_CONS a b) -> (forall a, i <> ITER a) -> P i.
   Hypothesis Hifnone : forall a b, Forall P a -> Forall P b -> P (IF_NONE a b).
   Hypothesis Hifcons : forall a b, Forall P a -> Forall P b -> P (IF_CONS a b).
+  Hypothesis Hiter : forall a, Forall P a -> P (ITER a).
   Fixpoint instr_ind' (i : instr) : P i.
   Proof.
     pose (go := fix go (l : list instr) : Forall P l :=
@@ -47,6 +48,7 @@ Section instr_ind'.
     all: try (apply Hbase; intros; discriminate).
     - apply Hifnone; apply go.
     - apply Hifcons; apply go.
+    - apply Hiter; apply go.
   Defined.
 End instr_ind'.
 
@@ -108,6 +110,13 @@ Definition wt_stack (s : list val) : bool := forallb wt s.
 
 Lemma wt_list t l : wt (VList t l) = forallb (fun x => ty_eqb t (type_of x) && wt x) l.
 Proof. induction l as [|x r IH]; [reflexivity|]. cbn [wt forallb] in *. rewrite IH. reflexivity. Qed.
+
+Lemma wt_list_forall t l : wt (VList t l) = true -> forallb wt l = true.
+Proof.
+  rewrite wt_list. induction l as [|y r IH]; intros H; [reflexivity|].
+  cbn [forallb] in *. apply andb_prop in H. destruct H as [Hy Hr]. apply andb_prop in Hy. destruct Hy as [_ Hy].
+  rewrite Hy, (IH Hr). reflexivity.
+Qed.
 
 (* a duplicable, well-typed value contains no ticket *)
 Lemma duplicable_mass0 k v : wt v = true -> duplicable (type_of v) = true -> mass k v = 0.
@@ -340,10 +349,10 @@ Ltac mass_facts k :=
          end; intros.
 
 Lemma step_base_preserves i :
-  (forall a b, i <> IF_NONE a b) -> (forall a b, i <> IF_CONS a b) -> preserves (step i).
+  (forall a b, i <> IF_NONE a b) -> (forall a b, i <> IF_CONS a b) -> (forall a, i <> ITER a) -> preserves (step i).
 Proof.
-  intros N1 N2.
-  destruct i; try (exfalso; eapply N1; reflexivity); try (exfalso; eapply N2; reflexivity).
+  intros N1 N2 N3.
+  destruct i; try (exfalso; eapply N1; reflexivity); try (exfalso; eapply N2; reflexivity); try (exfalso; eapply N3; reflexivity).
   1-4: first [ exact TICKET_preserves | exact READ_TICKET_preserves | exact SPLIT_TICKET_preserves | exact JOIN_TICKETS_preserves ].
   all: intros [sf stk0 m] st' Hok H; cbn [step stk] in H.
   all: destruct_matches H.
@@ -352,9 +361,51 @@ Proof.
   all: split; [norm; solve_bool | intros k; nonneg_facts k; mass_facts k; norm; lia].
 Qed.
 
+Lemma iter_with_preserves (stp : instr -> state -> result state) body :
+  Forall (fun i => preserves (stp i)) body ->
+  forall l st st', ok_stack (stk st) = true -> forallb wt l = true -> forallb tickets_pos l = true ->
+    iter_with stp body l st = Ok st' ->
+    ok_stack (stk st') = true /\
+    forall k, stack_mass k (stk st') + ledger_sum k (minted st) <= stack_mass k (stk st) + stack_mass k l + ledger_sum k (minted st')
+              /\ ledger_sum k (minted st) <= ledger_sum k (minted st').
+Proof.
+  intros Hbody. induction l as [|x r IH]; intros st st' Hok Hw Hp H; cbn [iter_with] in H.
+  - injection H as <-. split; [assumption|]. intros k. cbn [stack_mass]. lia.
+  - cbn [forallb] in Hw, Hp. apply andb_prop in Hw, Hp. destruct Hw as [Hw1 Hw2], Hp as [Hp1 Hp2].
+    destruct (run_with stp body (with_stk st (x :: stk st))) as [st1|] eqn:E; [|discriminate].
+    assert (Hok0 : ok_stack (stk (with_stk st (x :: stk st))) = true).
+    { unfold ok_stack, wt_stack, stack_pos, with_stk in *. cbn [stk forallb]. apply andb_prop in Hok. destruct Hok as [O1 O2].
+      rewrite Hw1, Hp1, O1, O2. reflexivity. }
+    destruct (run_with_preserves stp body Hbody _ st1 Hok0 E) as [Hok1 Hle1].
+    destruct (IH st1 st' Hok1 Hw2 Hp2 H) as [Hok' Hle']. split; [assumption|].
+    intros k. specialize (Hle1 k). specialize (Hle' k). unfold with_stk in Hle1. cbn [stk minted stack_mass] in *. lia.
+Qed.
+
 Theorem step_preserves i : preserves (step i).
 Proof.
-  induction i as [i N1 N2 | bt bf IHt IHf | bt bf IHt IHf] using instr_ind'.
+  induction i as [i N1 N2 N3 | bt bf IHt IHf | bt bf IHt IHf | body IHb] using instr_ind'.
+  4: {
+    intros [sf s m] st' Hok H. cbn [step stk] in H.
+    destruct s as [|x s]; [discriminate|]. destruct x; try discriminate.
+    - (* pair *)
+      assert (Hparts : ok_stack s = true /\ forallb wt [x1; x2] = true /\ forallb tickets_pos [x1; x2] = true).
+      { norm. split_ands. repeat split; solve_bool. }
+      destruct Hparts as (Hs & Hw & Hp).
+      match type of H with iter_with _ _ ?l0 ?st0 = _ =>
+        destruct (iter_with_preserves step body IHb l0 st0 st' Hs Hw Hp H) as [Hok' Hle] end.
+      split; [assumption|]. intros k. specialize (Hle k). norm. lia.
+    - (* list *)
+      assert (Hparts : ok_stack s = true /\ forallb wt l = true /\ forallb tickets_pos l = true).
+      { unfold ok_stack, wt_stack, stack_pos in *. cbn [stk forallb] in Hok.
+        apply andb_prop in Hok. destruct Hok as [O1 O2]. apply andb_prop in O1, O2.
+        destruct O1 as [W1 W2], O2 as [P1 P2]. rewrite W2, P2. rewrite pos_list in P1.
+        split; [reflexivity|]. split; [apply (wt_list_forall t l W1) | exact P1]. }
+      destruct Hparts as (Hs & Hw & Hp).
+      match type of H with iter_with _ _ ?l0 ?st0 = _ =>
+        destruct (iter_with_preserves step body IHb l0 st0 st' Hs Hw Hp H) as [Hok' Hle] end.
+      split; [assumption|]. intros k. specialize (Hle k). unfold with_stk in Hle.
+      cbn [stk minted] in *. cbn [stack_mass]. rewrite mass_list. lia.
+  }
   - apply step_base_preserves; assumption.
   - intros [sf s m] st' Hok H. cbn [step stk] in H.
     destruct s as [|x s]; [discriminate|]. destruct x; try discriminate.
@@ -404,11 +455,29 @@ Lemma existsb_fix p :
   = existsb has_ticket_instr p.
 Proof. induction p as [|x r IH]; [reflexivity|]. cbn [existsb]. rewrite <- IH. reflexivity. Qed.
 
+Lemma iter_with_keeps (stp : instr -> state -> result state) body :
+  Forall (fun i => has_ticket_instr i = false -> keeps_ledger (stp i)) body ->
+  existsb has_ticket_instr body = false ->
+  forall l st st', iter_with stp body l st = Ok st' -> minted st' = minted st.
+Proof.
+  intros Hb Hno. induction l as [|x r IH]; intros st st' H; cbn [iter_with] in H.
+  - injection H as <-. reflexivity.
+  - destruct (run_with stp body (with_stk st (x :: stk st))) as [st1|] eqn:E; [|discriminate].
+    rewrite (IH st1 st' H). apply (run_with_keeps stp body Hb Hno) in E. exact E.
+Qed.
+
 Theorem step_keeps_ledger i : has_ticket_instr i = false -> keeps_ledger (step i).
 Proof.
-  induction i as [i N1 N2 | bt bf IHt IHf | bt bf IHt IHf] using instr_ind'; intros Hno.
+  induction i as [i N1 N2 N3 | bt bf IHt IHf | bt bf IHt IHf | body IHb] using instr_ind'; intros Hno.
+  4: {
+    cbn [has_ticket_instr] in Hno. rewrite existsb_fix in Hno.
+    intros [sf s m] st' H. cbn [step stk] in H.
+    destruct s as [|x s]; [discriminate|]. destruct x; try discriminate.
+    - apply (iter_with_keeps step body IHb Hno) in H. exact H.
+    - apply (iter_with_keeps step body IHb Hno) in H. exact H.
+  }
   - intros [sf s m] st' H.
-    destruct i; try discriminate Hno; try (exfalso; eapply N1; reflexivity); try (exfalso; eapply N2; reflexivity);
+    destruct i; try discriminate Hno; try (exfalso; eapply N1; reflexivity); try (exfalso; eapply N2; reflexivity); try (exfalso; eapply N3; reflexivity);
       cbn [step stk] in H; destruct_matches H; injection H as <-; reflexivity.
   - cbn [has_ticket_instr] in Hno. rewrite !existsb_fix in Hno. apply orb_false_elim in Hno. destruct Hno as [H1 H2].
     intros [sf s m] st' H. cbn [step stk] in H.
